@@ -15,6 +15,7 @@ import TwProofs.Lemmas.Utf8Valid
 import TwProofs.Lemmas.TrimSplit
 import TwProofs.Lemmas.TextCall
 import TwProofs.Lemmas.TextCallNum
+import TwProofs.Lemmas.TextCallStr
 import TwProofs.C12
 
 namespace Tw.C11
@@ -280,6 +281,41 @@ example : evaluateStringPure [] (b "{{ s.repeat( 3 ) }}") [(b "s", .str (b "ab")
     [32] [32] [32] [32] (by decide) (by decide) (by decide) (by decide) (.str (b "ab")) (by rfl) (by rfl)
     (.str (b "ababab")) (by rfl)
   have hs : callNumSrc [32] (b "s") (b "repeat") [32] (b "3") [32] [32] = b "{{ s.repeat( 3 ) }}" := by decide
+  rw [hs] at this
+  exact this
+
+/-- **a builtin call with a string literal as its argument prints its result, from the source bytes on**:
+    for every data entry `(k, g)` whose converted value `rv` has a table of functions, every function name
+    `fn`, every string literal (either quote, no backslash) and any white space after `{{`, around the
+    literal and before `}}`: when the function answers `v` on `rv` with the *escaped* literal
+    (`literalValue`, C10) as its argument, the template `{{ k.fn("text") }}` renders the printed `v`
+    (`split`, `contains`, `join`, `trim`, `append`, `then`, …). -/
+theorem builtin_call_with_string_prints_from_source (custom : List ((VType × Bytes) × Nat)) (data : List (Bytes × GoVal)) (env : Env)
+    (hd : KeysDistinct data) (h : envFromMap data = .ok env) (k : Bytes) (g : GoVal) (hm : (k, g) ∈ data) (hk : isName k)
+    (fn : Bytes) (hfn : isName fn) (q : Byte) (hq : q = 34 ∨ q = 39) (c : Bytes) (hc : PlainStr q c)
+    (g1 g2 g3 g4 : Bytes) (hg1 : allWs g1) (hg2 : allWs g2) (hg3 : allWs g3) (hg4 : allWs g4)
+    (rv : Val) (hrv : nativeToObject g = some rv) (htab : hasBuiltinTable rv.type = true) (v : Val)
+    (hcall : callBuiltin rv fn [.str (literalValue c)] = some (.ok v)) :
+    evaluateStringPure custom (callStrSrc g1 k fn g3 q c g4 g2) data = .ok v.toStr := by
+  obtain ⟨v0, hv0, hget⟩ := C12.data_is_visible data env hd h k g hm
+  have hv0' : v0 = rv := by rw [hrv] at hv0; cases hv0; rfl
+  subst hv0'
+  obtain ⟨prog, t2, t4, t6, t7, hp, hs⟩ := parse_callStr_source g1 k fn g3 q c g4 g2 hg1 hg2 hg3 hg4 hk hfn hq hc
+  unfold evaluateStringPure envOrFail
+  rw [hp]
+  simp only [h, hs]
+  rw [show evalFuel = (evalFuel - 6) + 1 + 1 + 1 + 1 + 1 + 1 from by decide, evalProg_cons, evalStmt_succ]
+  simp only [stmtBody, calleesAt_expr]
+  simp only [evalExpr, hget, htab, evalExprs, hcall, Bool.not_true, Bool.false_eq_true, if_false, Res.bind_ok]
+  rw [evalProg_nil]
+  simp [resToOut]
+
+example : evaluateStringPure [] (b "{{ s.contains('b') }}") [(b "s", .str (b "abc"))] = .ok (b "1") := by
+  have := builtin_call_with_string_prints_from_source [] [(b "s", .str (b "abc"))] [[(b "s", .str (b "abc"))]] (by simp [KeysDistinct]) (by rfl)
+    (b "s") (.str (b "abc")) (by simp) (by decide) (b "contains") (by decide) 39 (Or.inr rfl) (b "b") (by decide)
+    [32] [32] [] [] (by decide) (by decide) (by decide) (by decide) (.str (b "abc")) (by rfl) (by rfl)
+    (.bool true) (by rfl)
+  have hs : callStrSrc [32] (b "s") (b "contains") [] 39 (b "b") [] [32] = b "{{ s.contains('b') }}" := by decide
   rw [hs] at this
   exact this
 
